@@ -17,7 +17,8 @@
   the LAST entry of a type is served), then thread list, module list, memory list (type 5) or
   memory-64 list (type 9), memory-info list, thread names, unloaded modules, exception?, system info?.
 
-  Streams NOT covered here (engine-side oracle only): misc info, Linux maps, handles, Crashpad.
+  then the optional streams: exception?, system info?, misc info?, handle data?, Linux maps?,
+  Crashpad info? (each present iff the model has it).
   CPU contexts are carried as raw bytes (their interpretation is C18's tables + the engine's oracle).
 
   System info is not decoded by `MdModel.Dump`; its reader lives here (`readSystemInfo`, with the
@@ -27,6 +28,7 @@
 -/
 import MdModel.Prelude
 import MdModel.Dump
+import MdModel.Dump2
 import MdModel.RangeMap
 import MdModel.Gen.LayoutsC02
 namespace MdModel.Encode
@@ -123,6 +125,15 @@ structure MSysInfo where
   csd : List Nat
   deriving DecidableEq, Repr
 
+/-- `MINIDUMP_MISC_INFO*`: which of the five revisions is written, its scalar values in layout
+    order (flag-guarded fields may hold anything, whatever `flags1` says), and bytes that follow
+    the struct inside the stream (a reader picks the revision by the stream's length alone) -/
+structure MMiscInfo where
+  ver : Nat
+  vals : List Nat
+  tail : List UInt8
+  deriving DecidableEq, Repr
+
 structure DumpModel where
   flags : Nat
   /-- 4 bytes of padding between the count and the entries of the four `read_stream_list` streams -/
@@ -137,6 +148,7 @@ structure DumpModel where
   sysInfo : Option MSysInfo
   /-- raw streams (type, bytes) listed FIRST in the directory -/
   extra : List (Nat × List UInt8)
+  miscInfo : Option MMiscInfo := none
   deriving DecidableEq, Repr
 
 /-! ## integers and records -/
@@ -321,6 +333,15 @@ def sysInfoRec (off : Nat) (s : MSysInfo) : List Nat :=
 def encSysInfo (e : Endian) (off : Nat) (s : MSysInfo) : List UInt8 :=
   encFields e SYSTEM_INFO_LAYOUT (sysInfoRec off s)
 
+/-! ### misc info (no out-of-band data) -/
+
+def ST_MISC_INFO : Nat := ST_MiscInfoStream
+
+def encMiscInfo (e : Endian) (x : MMiscInfo) : List UInt8 :=
+  encFields e (miscLayout x.ver) x.vals ++ x.tail
+
+def miscInfoSize (x : MMiscInfo) : Nat := Layout.size (miscLayout x.ver) + x.tail.length
+
 /-! ## the whole file -/
 
 /-- sizes of the out-of-band groups -/
@@ -355,7 +376,8 @@ def coreStreamSizes (m : DumpModel) (f : MemForm) : List (Nat × Nat) :=
    (ST_THREAD_NAMES, listHeaderSize m.pad + 12 * m.threadNames.length),
    (ST_UNLOADED_MODULE_LIST, 12 + 24 * m.unloaded.length)] ++
   optList m.exception (fun _ => (ST_EXCEPTION, 168)) ++
-  optList m.sysInfo (fun _ => (ST_SYSTEM_INFO, 56))
+  optList m.sysInfo (fun _ => (ST_SYSTEM_INFO, 56)) ++
+  optList m.miscInfo (fun x => (ST_MISC_INFO, miscInfoSize x))
 
 def streamSizes (m : DumpModel) (f : MemForm) : List (Nat × Nat) :=
   m.extra.map (fun x => (x.1, x.2.length)) ++ coreStreamSizes m f
@@ -407,7 +429,8 @@ def coreStreams (m : DumpModel) (e : Endian) (f : MemForm) : List (Nat × List U
    (ST_THREAD_NAMES, encThreadNames e m.pad o.names m.threadNames),
    (ST_UNLOADED_MODULE_LIST, encUnloadedList e o.unloaded m.unloaded)] ++
   optList m.exception (fun x => (ST_EXCEPTION, encException e o.exc x)) ++
-  optList m.sysInfo (fun s => (ST_SYSTEM_INFO, encSysInfo e o.csd s))
+  optList m.sysInfo (fun s => (ST_SYSTEM_INFO, encSysInfo e o.csd s)) ++
+  optList m.miscInfo (fun x => (ST_MISC_INFO, encMiscInfo e x))
 
 def allStreams (m : DumpModel) (e : Endian) (f : MemForm) : List (Nat × List UInt8) :=
   m.extra ++ coreStreams m e f
@@ -501,6 +524,7 @@ structure Reported where
   unloaded : Except Err (List MUnloaded)
   exception : Except Err RException
   sysInfo : Except Err RSysInfo
+  miscInfo : Except Err MiscInfo
 
 def sliceList (b : Bytes) (s e : Nat) : List UInt8 := (b.extract s e).toList
 
@@ -576,6 +600,7 @@ def decode (b : Bytes) : Res Reported :=
     Res.bind (streamRes d b ST_UNLOADED_MODULE_LIST (fun s => readUnloadedModuleList ms s b e)) fun unloaded =>
     Res.bind (streamRes d b ST_EXCEPTION (fun s => readException s b e)) fun exc =>
     Res.bind (streamRes d b ST_SYSTEM_INFO (fun s => readSystemInfo s b e)) fun sys =>
+    Res.bind (streamRes d b ST_MISC_INFO (fun s => readMiscInfo s e)) fun misc =>
     .ok { endian := e, flags := d.header.flags,
           threads := threads.map (·.map (rthreadOf b)),
           modules := modules.map (·.map (mmoduleOf e)),
@@ -584,7 +609,8 @@ def decode (b : Bytes) : Res Reported :=
           threadNames := names,
           unloaded := unloaded.map (·.map munloadedOf),
           exception := exc.map (rexceptionOf b),
-          sysInfo := sys }
+          sysInfo := sys,
+          miscInfo := misc }
 
 /-! ## the model as the reader reports it -/
 
@@ -627,7 +653,10 @@ def report (m : DumpModel) (e : Endian) (f : MemForm) : Reported :=
       | some x => .ok (reportException x),
     sysInfo := match m.sysInfo with
       | none => .error .StreamNotFound
-      | some s => .ok (reportSysInfo s) }
+      | some s => .ok (reportSysInfo s),
+    miscInfo := match m.miscInfo with
+      | none => .error .StreamNotFound
+      | some x => .ok ⟨x.ver, x.vals⟩ }
 
 /-! ## memory lookup: `memory_at_address` + `get_memory_at_address::<u8>` -/
 
@@ -791,6 +820,13 @@ def parseName (s : String) : Option (List Nat) :=
 def parseNats (sep : String) (s : String) : Option (List Nat) :=
   if s == "" then some [] else (s.splitOn sep).mapM Proto.optNat
 
+/-- numbers separated by `.`, where `z<n>` stands for `n` zeros -/
+def parseNatsZ (s : String) : Option (List Nat) :=
+  if s == "" then some [] else
+  ((s.splitOn ".").mapM fun (t : String) =>
+    if t.startsWith "z" then (Proto.optNat (t.drop 1).toString).map fun n => List.replicate n 0
+    else (Proto.optNat t).map fun v => [v]).map List.flatten
+
 def parseCv (s : String) : Option (Option MCv) :=
   if s == "-" then some none else
   match s.splitOn ":" with
@@ -876,6 +912,16 @@ def parseSysInfo (s : String) : Option (Option MSysInfo) :=
     | _, _, _ => none
   | _ => none
 
+/-- `-` | `<ver>,<tail bytes>,<values>` -/
+def parseMiscInfo (s : String) : Option (Option MMiscInfo) :=
+  if s == "-" then some none else
+  match s.splitOn "," with
+  | [ver, tail, vals] =>
+    match Proto.optNat ver, parseBytes tail, parseNatsZ vals with
+    | some ver, some tail, some vals => some (some ⟨ver, vals, tail⟩)
+    | _, _, _ => none
+  | _ => none
+
 def parseExtra : List String → Option (Nat × List UInt8)
   | [ty, bytes] =>
     match Proto.optNat ty, parseBytes bytes with
@@ -886,8 +932,8 @@ def parseExtra : List String → Option (Nat × List UInt8)
 def field (key : String) (s : String) : Option String :=
   if s.startsWith key then some (s.drop key.length).toString else none
 
-/-- `fl=.. pad=0|1 T=.. M=.. R=.. I=.. N=.. U=.. X=.. S=.. D=..` -/
-def parseModel : List String → Option DumpModel
+/-- the eleven original fields -/
+def parseModel11 : List String → Option DumpModel
   | [fl, pad, t, m, r, i, n, u, x, s, d] =>
     match field "fl=" fl >>= Proto.optNat, field "pad=" pad >>= Proto.optNat,
           field "T=" t >>= parseList parseThread, field "M=" m >>= parseList parseModule,
@@ -895,8 +941,22 @@ def parseModel : List String → Option DumpModel
           field "N=" n >>= parseList parseThreadName, field "U=" u >>= parseList parseUnloaded,
           field "X=" x >>= parseException, field "S=" s >>= parseSysInfo, field "D=" d >>= parseList parseExtra with
     | some fl, some pad, some t, some m, some r, some i, some n, some u, some x, some s, some d =>
-      if pad ≤ 1 then some ⟨fl, pad == 1, t, m, r, i, n, u, x, s, d⟩ else none
+      if pad ≤ 1 then
+        some { flags := fl, pad := pad == 1, threads := t, modules := m, memory := r, memInfo := i, threadNames := n,
+               unloaded := u, exception := x, sysInfo := s, extra := d }
+      else none
     | _, _, _, _, _, _, _, _, _, _, _ => none
+  | _ => none
+
+/-- `fl=.. pad=0|1 T=.. M=.. R=.. I=.. N=.. U=.. X=.. S=.. D=..` optionally followed by `Y=..`
+    (misc info); a line without the optional fields has none of those streams -/
+def parseModel (toks : List String) : Option DumpModel :=
+  match toks.drop 11 with
+  | [] => parseModel11 toks
+  | [y] =>
+    match parseModel11 (toks.take 11), field "Y=" y >>= parseMiscInfo with
+    | some m, some y => some { m with miscInfo := y }
+    | _, _ => none
   | _ => none
 
 def fnv64 (bs : List UInt8) : UInt64 :=
@@ -952,6 +1012,19 @@ def showSysInfo : Except Err RSysInfo → String
     s!"{s.arch},{s.level},{s.revision},{s.nproc},{s.productType},{s.major},{s.minor},{s.build},{s.platform},{s.suite}," ++
     s!"{showBlob s.cpu}," ++ (match s.csd with | none => "~" | some n => showName n)
 
+def showNatList (vs : List Nat) : String :=
+  match vs with
+  | [v] => toString v
+  | _ => s!"{vs.length}:{Proto.natToHex (fnv64 (vs.flatMap (leBytes 8))).toNat}"
+
+/-- `<ver>;<accessor>=<value|~>;…` for every accessor of `RawMiscInfo`, in the table's order -/
+def showMiscInfo : Except Err MiscInfo → String
+  | .error e => "err " ++ e.name
+  | .ok mi => Proto.joinWith ";" (toString mi.ver :: MISC_ACCESSORS.map fun (name, since, flag) =>
+      name ++ "=" ++ (match miscAccessWith mi name since flag with
+        | none => "~"
+        | some vs => showNatList vs))
+
 /-- the probe addresses of a region list: around both ends of every region -/
 def probeAddrs (rs : List MRegion) : List Nat :=
   rs.flatMap fun r =>
@@ -980,7 +1053,8 @@ def showReported (r : Reported) : String :=
     "N=" ++ showList showThreadName r.threadNames,
     "U=" ++ showList showUnloaded r.unloaded,
     "X=" ++ showException r.exception,
-    "S=" ++ showSysInfo r.sysInfo]
+    "S=" ++ showSysInfo r.sysInfo,
+    "Y=" ++ showMiscInfo r.miscInfo]
 
 def showEndian : Endian → String
   | .little => "le"
@@ -1004,7 +1078,7 @@ def parseForm : String → Option MemForm
 
 /-- line-protocol entry point (engine `roundtrip`):
       roundtrip decode <hex(bytes)>                        -> <le|be> <report>  | err <Error> | PANIC <site>
-      roundtrip encode <le|be> <mem|mem64> <model: 11 fields> -> hex(bytes)
+      roundtrip encode <le|be> <mem|mem64> <model: 11 fields + optional ones> -> hex(bytes)
       roundtrip report <le|be> <mem|mem64> <model>          -> <le|be> <report of `report m e f`>
       roundtrip all <hex> <hex> <hex> <hex> <model>          -> the four decode answers, the four encodings
         (le/mem, be/mem, le/mem64, be/mem64) and the four `report`s, separated by ` ## ` -/
